@@ -262,5 +262,12 @@ def rules(ctx, db):
     ctx.ob("R7", "JoinHandle-Send-impl-found", len(jh) == 1, "the Send impl of JoinHandle is the one with the T: Send bound")
 
 
+def rules_all(ctx, db):
+    rules(ctx, db)
+    if ctx.tier == "thorough" and ctx.cfg == "A":
+        from .. import witness
+        witness.obligations(ctx, "C04")
+
+
 def check(tier):
-    return engine.run("C04", tier, rules, NOT_DECIDED, [])
+    return engine.run("C04", tier, rules_all, NOT_DECIDED, [])
